@@ -5,7 +5,7 @@
    enable word), read ports (domain or comb, transparent_for as write-port indices in the given order, init of the
    data signal); st = committed rows + data signal of every read port + current read-port inputs; ev =
    `EStep doms wi ri` (port inputs wi/ri, then the clocks of the listed domains rise in ONE ctx.set, each with the
-   level of its reset; the processes run in the order of the list) or `ETbSet i v` (ctx.set(mem.data[i], v)).
+   level of its reset — which does not reach the memory: read data registers have no reset; the processes run in the order of the list) or `ETbSet i v` (ctx.set(mem.data[i], v)).
    Specification: `spec_step` — an array of rows; all writes of the ports whose clock rises are applied to the
    addressed rows in PORT order, `spec_write_row` replaces the enabled granules; no write queue, no process order.
 
@@ -147,7 +147,7 @@ Print Assumptions C11_collision_port_order.
 (* simultaneous edges: the order in which the simulator runs the domains' processes is immaterial under ev_ok *)
 Theorem C11_simultaneous_edge_order_irrelevant md st doms doms' wi ri : wf_md md = true -> wf_state md st ->
   ev_ok md (EStep doms wi ri) = true -> ev_ok md (EStep doms' wi ri) = true ->
-  (forall d, dom_active doms d = dom_active doms' d) -> (forall d, dom_rst doms d = dom_rst doms' d) ->
+  (forall d, dom_active doms d = dom_active doms' d) ->
   mem_step md st (EStep doms wi ri) = mem_step md st (EStep doms' wi ri).
 Proof. exact (edge_order_irrelevant md st doms doms' wi ri). Qed.
 Print Assumptions C11_simultaneous_edge_order_irrelevant.
@@ -177,7 +177,7 @@ Theorem C11_read_data_after_step md st doms wi ri j p : wf_md md = true -> wf_st
       if dom_active doms d then
         if Z.odd (ri_en (ri j))
         then spec_apply (md_shape md) (spec_transp (all_sacts md wi) (rp_transp p)) a (spec_read md (st_rows st) a)
-        else if dom_rst doms d then rp_init p else nth j (st_rdata st) 0
+        else nth j (st_rdata st) 0
       else nth j (st_rdata st) 0
   end.
 Proof. intros Hmd Hst. exact (rdata_after_step md st Hmd Hst doms wi ri j p). Qed.
@@ -238,10 +238,11 @@ Proof.
 Qed.
 Print Assumptions C11_transparent_collision_follows_transparent_for_order.
 
-(* read_hold_spec: a port whose clock does not rise, or that is disabled while its domain's reset is low, holds *)
+(* read_hold_spec: a port whose clock does not rise, or that is disabled, holds — whatever the level of its domain's
+   reset (the read data register has no reset; the reset levels carried by `doms` are arbitrary here) *)
 Theorem C11_read_hold_spec md st doms wi ri j p d : wf_md md = true -> wf_state md st ->
   ev_ok md (EStep doms wi ri) = true -> nth_error (md_rports md) j = Some p -> rp_dom p = Some d ->
-  dom_active doms d = false \/ (Z.odd (ri_en (ri j)) = false /\ dom_rst doms d = false) ->
+  dom_active doms d = false \/ Z.odd (ri_en (ri j)) = false ->
   nth j (st_rdata (mem_step md st (EStep doms wi ri))) 0 = nth j (st_rdata st) 0.
 Proof. intros Hmd Hst. exact (read_hold md st Hmd Hst doms wi ri j p d). Qed.
 Print Assumptions C11_read_hold_spec.
@@ -252,20 +253,13 @@ Theorem C11_read_hold_over_row_write md st i v j p d : wf_md md = true -> wf_sta
 Proof. intros Hmd Hst. exact (read_hold_tb md st Hmd Hst i v j p d). Qed.
 Print Assumptions C11_read_hold_over_row_write.
 
-(* finding: with the domain's (synchronous) reset asserted a DISABLED read port does not hold in the simulator —
-   its data signal is loaded with the init value; the $memrd_v2 cell emitted for it has no reset (SRST = 0) and holds *)
-Theorem C11_read_hold_under_reset_refuted :
-  exists md init e1 e2 j,
-    wf_md md = true /\ forallb (ev_ok md) [e1; e2] = true /\
-    (match e2 with EStep doms wi ri => Z.odd (ri_en (ri j)) = false /\ dom_rst doms 0 = true | _ => False end) /\
-    nth j (st_rdata (mem_run md (init_state md init) [e1; e2])) 0 <>
-    nth j (st_rdata (mem_run md (init_state md init) [e1])) 0.
-Proof.
-  exists (MD (Sh 8 false) 4 [] [RP (Some 0) [] 0]), [5; 6; 7; 8],
-         (EStep [(0, false)] (ex_wi []) (ex_ri [RI 1 1])), (EStep [(0, true)] (ex_wi []) (ex_ri [RI 1 0])), 0%nat.
-  vm_compute. repeat split; try reflexivity. discriminate.
-Qed.
-Print Assumptions C11_read_hold_under_reset_refuted.
+Example ex_read_hold_under_reset :
+  let md := MD (Sh 8 false) 4 [] [RP (Some 0) [] 0] in
+  let e1 := EStep [(0, false)] (ex_wi []) (ex_ri [RI 1 1]) in
+  let e2 := EStep [(0, true)] (ex_wi []) (ex_ri [RI 1 0]) in
+  st_rdata (mem_run md (init_state md [5; 6; 7; 8]) [e1]) = [6] /\
+  st_rdata (mem_run md (init_state md [5; 6; 7; 8]) [e1; e2]) = [6].
+Proof. vm_compute. split; reflexivity. Qed.
 
 (* ------------------------------------------------------------------ testbench row access: the same storage *)
 (* ctx.set(mem.data[i], v) then ctx.get(mem.data[a]) *)
